@@ -703,13 +703,15 @@ func (c *c31case) pickDropped() (string, bool) {
 	return c.dropIDs[c.rng.Intn(len(c.dropIDs))], true
 }
 
-// c31guard turns a panic of the code under test on the driver goroutine into a recorded
-// violation (a panic on one of the cache's own goroutines still kills the test binary and
-// is reported by the runner as C31/crash). It must be the first defer of a case so that it
-// also sees a panic raised by the deferred Stop.
-func c31guard(run *verifkit.Run, sig string, witness func() map[string]any) {
+// c31guard is the only defer of a case: it turns a panic of the code under test on the
+// driver goroutine into a recorded violation, and stops the cache otherwise. After a panic the
+// cache is NOT stopped: the panicking call may have died holding the checker's lock, and Stop
+// would wait for the drain goroutine parked on it (the instance is leaked instead). A panic on
+// one of the cache's own goroutines still kills the test binary (runner: C31/crash).
+func c31guard(run *verifkit.Run, sig string, witness func() map[string]any, stop func()) {
 	r := recover()
 	if r == nil {
+		stop()
 		return
 	}
 	buf := make([]byte, 6000)
@@ -753,8 +755,7 @@ func c31burst(run *verifkit.Run, rng *verifkit.Rand, sample bool) {
 	if c == nil {
 		return
 	}
-	defer c31guard(run, "C31/dropped-filter/panic-after-burst", func() map[string]any { return map[string]any{"history_tail": c.hist} })
-	defer c.real.c.Stop()
+	defer c31guard(run, "C31/dropped-filter/panic-after-burst", func() map[string]any { return map[string]any{"history_tail": c.hist} }, c.real.c.Stop)
 	slots := c31slots(c.curL.capa)
 	// phase 1: at most half full, maintained, no second generation
 	pre := rng.Range(0, slots/2-1)
@@ -832,8 +833,7 @@ func c31run(run *verifkit.Run, rng *verifkit.Rand, sample bool) {
 		return
 	}
 	clock := c.clock
-	defer c31guard(run, "C31/panic/lock-step-history", func() map[string]any { return map[string]any{"history_tail": c.hist} })
-	defer c.real.c.Stop()
+	defer c31guard(run, "C31/panic/lock-step-history", func() map[string]any { return map[string]any{"history_tail": c.hist} }, c.real.c.Stop)
 	steps := rng.Range(20, 220)
 	maintainEvery := verifkit.Pick(rng, 1, 3, 10, 1000) // 1000: (almost) never, the filter overfills
 	for st := 0; st < steps; st++ {
@@ -937,7 +937,7 @@ func c31run(run *verifkit.Run, rng *verifkit.Rand, sample bool) {
 func TestVerif_C31(t *testing.T) {
 	run := verifkit.Start(t, "C31", "cache")
 	defer run.Finish()
-	run.Rule("PRNG histories on one real cuckooSentCache (kept capacity 1-32 per worker, dropped capacity 32-1500 per worker, 1-3 workers): Record(keep) of new and known ids with boundary rates and interned reasons, Record(drop) of new ids, of kept ids and of already dropped ids, bursts that stop one short of / reach / exceed the filter capacity or the add-queue depth, CheckSpan/CheckTrace biased to the next-to-be-evicted kept id and the oldest outstanding dropped promise, Maintain at different cadences (incl. never), Resize up and down, fake-clock advances across the 3 s recent-dropped TTL; non-trivial = the history looked up a kept id with exactly K-1 newer ids, recorded a dropped decision for an id that also has a kept record, and filled the filter to capacity at least once; distinct = sequence of step kinds")
+	run.Rule("PRNG histories on one real cuckooSentCache (kept capacity 1-32 per worker, dropped capacity 32-1500 per worker, 1-3 workers): Record(keep) of new and known ids with boundary rates and interned reasons, Record(drop) of new ids, of kept ids and of already dropped ids, bursts that stop one short of / reach / exceed the filter capacity or the add-queue depth, CheckSpan/CheckTrace biased to the next-to-be-evicted kept id and the oldest outstanding dropped promise, Maintain at different cadences (incl. never), Resize up and down, fake-clock advances across the 3 s recent-dropped TTL; non-trivial = the history looked up a kept id with exactly K-1 newer ids, recorded a dropped decision for an id that also has a kept record, and filled the filter to capacity at least once; distinct = sequence of step kinds. read-your-writes list: 100-400 ids per case, CheckSpan right after Record(dropped) returned (same goroutine / second goroutine released by a hand-over), no drain; non-trivial = some lookup preceded the filter insert. burst-maintain list: <=50% load, burst past 99% without Maintain, Maintain twice, lookups; non-trivial = the burst reached 99%")
 	run.Assume("answers are taken after the driver drained the add queue (CuckooTraceChecker.drain); the 100us internal drain goroutine may run concurrently; the internal monitor is parked (SizeCheckInterval 24h) and the driver calls Maintain")
 	run.Assume("'filled to capacity' is read as: entry count of the current filter >= the capacity it was created with (or load factor > 0.99); the filter library places at most 96% of its slots at that capacity, so inserts do not fail before that point")
 	run.Cases("histories", run.N(800, 80000), func(i int, rng *verifkit.Rand) { c31run(run, rng, i < 2) })
@@ -958,8 +958,7 @@ func c31ryw(run *verifkit.Run, rng *verifkit.Rand, sample bool) {
 		run.Inconclusive("NewCuckooSentCache: " + err.Error())
 		return
 	}
-	defer c31guard(run, "C31/panic/read-your-writes", nil)
-	defer real.c.Stop()
+	defer c31guard(run, "C31/panic/read-your-writes", nil, real.c.Stop)
 	n := rng.Range(100, 400)
 	otherGoroutine := rng.Bool()
 	type item struct {
